@@ -19,7 +19,7 @@ RULE = ('one case = (operation, success or forced-failure path); stdout and stde
         'and searched for each secret of that operation (private scalars in both byte orders, master secret, key block and '
         'its slices, TLS 1.3 traffic keys recovered from the key schedule and IVs, passwords, plaintexts) as raw bytes and '
         'as hex (lower/upper, optional space/colon/newline separators); a hit is a window of >= 8 secret bytes with >= 6 '
-        'distinct values. distinct = distinct (operation, path, secret kind); non-trivial = the operation ran and its '
+        'distinct values. distinct = distinct (operation, path, secret kind, secret value); one evaluation = one secret searched in one captured channel; non-trivial = the operation ran and its '
         'secrets were known to the harness')
 ASSUMPTIONS = ['secrets come from the harness entropy stream (high entropy), so windows of 8 bytes with 6 distinct values '
                'do not occur by chance in innocent output', 'explicit print/export calls of the very object are not in the '
@@ -29,7 +29,7 @@ STALL_S = 300
 
 def plan(tier, seed):
     units = []
-    reps = 5 if tier == 'quick' else 16
+    reps = 5 if tier == 'quick' else 150
     for rep in range(reps):
         for proto in ('tlcp', 'tls12', 'tls13'):
             for mutual in (False, True):
@@ -108,8 +108,9 @@ def judge(ctx, cap, secrets, op, path):
         ctx.check(not hits, 'leak:%s:%s:%s' % (chan, op, hits[0][0] if hits else ''), path=path, hits=hits[:6],
                   excerpt=text[:300].decode(errors='replace'))
         ctx.stat('captured_bytes_' + chan, len(text))
-    for name, _ in secrets:
-        ctx.nontrivial(op, path, name)
+    ctx.ok(2 * len(secrets))
+    for name, val in secrets:
+        ctx.nontrivial(op, path, name, bytes(val[:6]))     # distinct = (operation, path, kind of secret, the secret itself)
 
 
 def worker_init(ctx):
